@@ -289,11 +289,12 @@ PROPS["C15"] = {
     "title": "Bot plugin: legality gate and threefold detection",
     "groups": [dict(ENG, module="c15", jobs=3, mem_q=14)],
     "functions": ["chess_bot::ChessBot::{make_move,set_board,board} (impl of chess_api::ChessEngineTrait)", "chess_engine::ThreeFold::{new,add,get} over std HashMap<Board,u8,IntHashBuilder> + Hash/Eq for Board", "chess_api::StableChessMove -> ChessMove"],
-    "bounds": "gate: fully symbolic board, symbolic stable move, free legality answer and free repetition answer; repetition table: 5 insertions, each of one of two distinct positions (symbolic choice per step)",
+    "bounds_quick": "gate: fully symbolic board, symbolic stable move, free legality answer and free repetition answer",
+    "bounds_thorough": "as quick, plus the real repetition table: 5 insertions, each of one of two distinct positions (symbolic choice per step) - measured: does not finish in 25 min (std HashMap under CBMC), so this clause is effectively NOT covered",
     "outside": "the dlopen / abi_stable trait-object boundary (FFI) - the methods behind it are what runs; repetition histories longer than 5 insertions / more than 2 distinct positions; that the proposed move is legal is C11; Board::is_legal and make-move are free/marker functions here (their meaning: C01, C02)",
     "stubs": ["Board::is_legal -> free boolean", "Board::move_unchecked_into -> marker transformation", "ThreeFold::add -> recorder with a free answer (gate queries only; the table query runs the real HashMap)"], "assumptions": [],
     "level_text": "The real plugin methods run on a symbolic board and move: applied iff legal, otherwise position unchanged and reported invalid; the board reported is the make-move result; the repetition table is asked exactly once, with the new position, iff the move was applied, and its answer is the threefold flag; set_board and the constructor count the position they install. "
-                  "The real repetition table answers true exactly on the third insertion of an equal position (5 symbolic insertions over 2 positions).",
+                  "The repetition table itself (std HashMap) is attempted in the thorough tier only and did not finish within the budget: its 'true exactly on the third insertion' behaviour is NOT decided (stated).",
     "level_note": "Long reversible manoeuvres are covered by the one-step structure (gate + counter + hash purity C04), not by exploring 8-ply histories.",
     "design_ref": "DESIGN.md section 4 C15",
 }
